@@ -4,7 +4,17 @@ Engine "recorder" (DESIGN.md 7/C07, Appendix A): lcm/manager.go, lcm/process.go,
 Part (a) format/parse: generated Coordinator event lists -> real SaveAsJepsenLog -> real ParseJepsenLog
          (-> real CheckEvents for histories generated from an atomic register).
 Part (b) protocol: real Coordinator/process objects against gated in-process gRPC stubs, scheduleProcesses
-         called directly; merged log of history appends and rpc start/return per process.
+         called directly; merged log of history appends and rpc start/return per process.  Failures are injected at
+         every STAGE of an operation: connection (replica down: connection refused / peer silent, dial deadline),
+         session (GetSession error with any status code / no answer before the deadline), data rpc (error before or
+         after the effect, client side timeout).
+Part (c) text forms: hand-written log TEXTS -> real ParseJepsenLog (-> real CheckEvents): the same lines with "\n" or
+         "\r\n" line ends, with or without a terminator after the last line, with blank lines anywhere (the parsed
+         history and the verdict must not depend on the form: C07_text_form_irrelevant / C07_roundtrip_text), plus
+         texts that only the model comparison judges (white space inside lines, stray "\r", long lines, odd bytes).
+         The text -> lines split is the model's (Jepsen.read_lines; JepsenText.render is its right inverse on text
+         forms); the harness renders the same (lines, terminators) structure to bytes itself and the model checks
+         length and byte sum of the two renderings.
 Monitors are evaluated on what the implementation did; the Gallina model (Jepsen.v, Recorder.v) is run on
 the same cases by coqc (JepsenRun.v, RecorderRun.v)."""
 import json, os, re, time
@@ -21,6 +31,7 @@ KINDS = [("r", "i"), ("r", "c"), ("r", "f"), ("w", "i"), ("w", "c"), ("w", "f")]
 WIDE_ID = "C07-wide-pid"   # fixed in /repo (596c68b); its signature is kept to name the defect should it come back
 MAX_REPORT = 4   # violation records per monitor kind
 # gRPC status codes failures are injected with (grpcError of the real NodehostAPI produces the first six)
+LINE_LIMIT = 4096   # bufio.Reader's buffer: parseJepsenLog refuses (panics on) a line of that many bytes ("\r" included, "\n" not)
 CODES = ["NotFound", "Unavailable", "DeadlineExceeded", "Canceled", "InvalidArgument", "Unknown", "Internal", "ResourceExhausted", "Aborted"]
 
 
@@ -277,10 +288,220 @@ def gen_format_cases(ck):
     return cases
 
 
+# ------------------------------------------------------------------ part (c): text forms
+EOLB = {"lf": b"\n", "crlf": b"\r\n", "none": b""}
+EOLC = {"lf": "ELf", "crlf": "ECrlf", "none": "ENone"}
+BLANKS = [b"", b"", b" ", b"\t", b"   ", b" \t \x0c", b"\x0c"]
+
+
+def fmt_line(e, ws=None):
+    """the line of a recorded event, written by hand: 'INFO  jepsen.util - <pid> <:invoke|:ok|:fail|:info> <:read|:write> <value>'
+    (column layout of the repaired toJepsenLogEntry; ws = a function giving the white space between two tokens instead)"""
+    t, r, p, v = e
+    kw = {"i": ":invoke", "c": ":ok", "f": ":fail" if t == "r" else ":info"}[r]
+    ty = ":read" if t == "r" else ":write"
+    if r == "f":
+        val = ":timed-out"
+    elif t == "r" and r == "i":
+        val = "nil"
+    else:
+        val = "nil" if v == NIL else str(v)
+    if ws is None:
+        return ("INFO  jepsen.util - %-3d %-8s%-8s%s" % (p, kw, ty, val)).encode()
+    toks = ["INFO", "jepsen.util", "-", str(p), kw, ty, val]
+    out = b""
+    for i, tok in enumerate(toks):
+        out += tok.encode() + (ws() if i + 1 < len(toks) else b"")
+    return out
+
+
+def render_text(tl):
+    return b"".join(l + EOLB[e] for (l, e) in tl)
+
+
+def text_form_ok(tl):
+    """python statement of JepsenText.text_ok (the model evaluates its own and the two are compared)"""
+    for i, (l, e) in enumerate(tl):
+        if b"\n" in l or b"\r" in l:
+            return False
+        if e == "none" and (i + 1 != len(tl) or not l):
+            return False
+    return True
+
+
+def bytes_coq(b):
+    """coq term (list N) for a byte string: printable stretches as string literals, long runs of one byte as rep c k"""
+    if not b:
+        return "[]"
+    parts, i, n = [], 0, len(b)
+    while i < n:
+        c = b[i]
+        j = i
+        while j < n and b[j] == c:
+            j += 1
+        if j - i >= 24:
+            parts.append("rep %d %d" % (c, j - i))
+            i = j
+            continue
+        j = i
+        while j < n and 0x20 <= b[j] <= 0x7e and b[j] != 0x22 and not (j + 24 <= n and b[j:j + 24] == bytes([b[j]]) * 24):
+            j += 1
+        if j > i:
+            parts.append('bs "%s"' % b[i:j].decode("ascii"))
+            i = j
+            continue
+        j = i
+        while j < n and not (0x20 <= b[j] <= 0x7e and b[j] != 0x22):
+            j += 1
+        parts.append("[" + ";".join(str(x) for x in b[i:j]) + "]")
+        i = j
+    return "(" + " ++ ".join(parts) + ")"
+
+
+def tlines_coq(tl):
+    return "[" + "; ".join("(%s, %s)" % (bytes_coq(l), EOLC[e]) for (l, e) in tl) + "]"
+
+
+def text_variants(rng, lines, quick):
+    """text forms of the same list of non-blank lines: (name, [(line, eol)])"""
+    n = len(lines)
+    out = [("lf", [(l, "lf") for l in lines])]
+    if n:
+        out.append(("no-final-newline", [(l, "lf") for l in lines[:-1]] + [(lines[-1], "none")]))
+        out.append(("crlf", [(l, "crlf") for l in lines]))
+        out.append(("crlf,no-final-newline", [(l, "crlf") for l in lines[:-1]] + [(lines[-1], "none")]))
+        out.append(("mixed-eol", [(l, rng.choice(["lf", "crlf"])) for l in lines[:-1]] + [(lines[-1], rng.choice(["lf", "crlf", "none"]))]))
+    # blank lines anywhere (start, between, end), the last one possibly unterminated
+    for k in range(1 if quick else 3):
+        tl = []
+        for l in lines:
+            while rng.random() < 0.3:
+                tl.append((rng.choice(BLANKS), rng.choice(["lf", "crlf"])))
+            tl.append((l, rng.choice(["lf", "crlf"])))
+        end = rng.randrange(4)
+        if end == 0:
+            tl += [(b"", rng.choice(["lf", "crlf"])) for _ in range(rng.randrange(1, 4))]
+        elif end == 1:
+            tl.append((rng.choice([b" ", b"\t", b"   "]), "none"))
+        elif end == 2 and tl:
+            tl[-1] = (tl[-1][0], "none")
+        if not tl:
+            tl = [(b"", "lf")]
+        out.append(("blank-lines", tl))
+    if n and rng.random() < (0.25 if quick else 0.6):
+        # a very long blank line just below the reader's limit, in front of the last line which is unterminated
+        k = rng.choice([LINE_LIMIT - 1, LINE_LIMIT - 2, 1000])
+        e = rng.choice(["lf", "crlf"])
+        pad = k - (1 if e == "crlf" else 0)
+        out.append(("long-blank-line", [(l, "lf") for l in lines[:-1]] + [(b" " * pad, e), (lines[-1], "none")]))
+    return out
+
+
+def nonlin_tail(rng, es):
+    """append a read by a new process, strictly after everything else, that returns a value nobody ever wrote:
+    the history cannot be linearizable and the deciding completion is the last line of the log"""
+    q = max([e[2] for e in es] + [0]) + 1
+    never = max([e[3] for e in es if e[0] == "w"] + [0]) + rng.choice([1, 2, 1000])
+    return es + [("r", "i", q, 0), ("r", "c", q, never)]
+
+
+def gen_text_cases(ck):
+    """-> list of dicts: group, variant, tl, chk, es (or None), invariant (member of its group's text-form class), special"""
+    rng, quick = ck.rng, ck.tier == "quick"
+    cases, gid = [], 0
+
+    def group(lines, es, chk, origin, must_reject=False):
+        nonlocal gid
+        for (name, tl) in text_variants(rng, lines, quick):
+            cases.append({"group": gid, "variant": name, "tl": tl, "chk": chk, "es": es, "invariant": True, "origin": origin,
+                          "must_reject": must_reject})
+        gid += 1
+
+    def single(tl, origin, chk=False):
+        nonlocal gid
+        cases.append({"group": gid, "variant": "as-is", "tl": tl, "chk": chk, "es": None, "invariant": False, "origin": origin, "must_reject": False})
+        gid += 1
+
+    # the empty log and the smallest ones
+    group([], [], True, "empty")
+    for (t, r) in KINDS:
+        p = rng.choice(IDS_B)
+        v = rng.choice(VALS[1:]) if (t, r) in (("w", "i"), ("w", "c"), ("r", "c")) else 0
+        group([fmt_line((t, r, p, v))], [(t, r, p, v)], False, "one-line")
+    # directed: complete sequential histories whose LAST line decides the verdict (write v ok; read -> v / nil / v+1)
+    for p in (0, 999, 1000, 2000):
+        v = rng.choice(VALS[1:-1])
+        for (rv, rej) in ((v, False), (NIL, True), (v + 1, True)):
+            es = [("w", "i", p, v), ("w", "c", p, v), ("r", "i", p + 1, 0), ("r", "c", p + 1, rv)]
+            group([fmt_line(e) for e in es], es, True, "last-line-decides", must_reject=rej)
+    pools = [list(range(0, 4)), [0, 999, 1000], [1500, 1999, 2000, 3], [0, 1], [9, 10, 99, 100, 1000]]
+    # histories of clients of an atomic register, and the same with a final read of a never written value
+    for k in range(14 if quick else 300):
+        es = gen_history(rng, rng.choice(pools), rng.randrange(2, 40), rng.choice([0, 0.1, 0.3]), max_failed_w=2, max_ops=10)
+        if not es:
+            continue
+        if k % 2:
+            es = nonlin_tail(rng, es)
+        group([fmt_line(e) for e in es], es, True, "linearizable" if k % 2 == 0 else "never-written-read", must_reject=bool(k % 2))
+    # other white space between the tokens (\s+ in the parser's patterns): blanks, tabs, form feeds, long runs (line below the limit)
+    for k in range(6 if quick else 80):
+        es = gen_history(rng, rng.choice(pools), rng.randrange(2, 24), 0.1, max_failed_w=2, max_ops=6)
+        big = rng.random() < 0.3
+        ws = lambda: (b" " * rng.choice([1, 2, 7]) if rng.random() < 0.6 else rng.choice([b"\t", b" \t", b"\x0c", b"\t\t "])) if not big or rng.random() < 0.8 \
+            else b" " * rng.choice([300, 500])
+        group([fmt_line(e, ws) for e in es], es, True, "token-white-space")
+    # numbers with leading zeros, up to a line just below the limit
+    for z in ([1, 30] if quick else [1, 2, 30, 1000, 3900]):
+        es = [("w", "i", 7, 5), ("w", "c", 7, 5), ("r", "i", 8, 0), ("r", "c", 8, 5)]
+        lines = [fmt_line(es[0]).replace(b"5", b"0" * z + b"5"), fmt_line(es[1]), fmt_line(es[2]).replace(b"- 8", b"- " + b"0" * z + b"8"),
+                 fmt_line(es[3]).replace(b"5", b"0" * z + b"5")]
+        group(lines, es, True, "leading-zeros")
+    # cas operations and lines the parser ignores (no recorded events to compare with: text-form invariance and the model judge)
+    P = b"INFO  jepsen.util - "
+    cas = [P + b"3   :invoke :cas    [1 2]", P + b"4   :invoke :write  1", P + b"4   :ok     :write  1", P + b"3   :ok     :cas    [1 2]",
+           P + b"5   :invoke :cas    [7 8]", P + b"5   :fail   :cas    [7 8]", P + b"6   :invoke :read   nil", P + b"6   :ok     :read   2"]
+    group(cas, None, True, "cas")
+    group(cas[:4] + [P + b"9   :invoke :cas    [2 3]"], None, True, "cas")
+    noise = [b"# comment", P + b"4   :invoke :write  1", b"INFO  jepsen.core - Run complete", P + b"4   :info   :write  :timed-out",
+             P + b"5   :invoke :read   nil", b"WARN  jepsen.util - 5   :ok     :read   1", P + b"5   :ok     :read   nil", b"x"]
+    group(noise, None, True, "ignored-lines")
+    # ---- texts judged by the model comparison only
+    a, b_, c, d = (fmt_line(e) for e in [("w", "i", 0, 1), ("w", "c", 0, 1), ("r", "i", 1, 0), ("r", "c", 1, 2)])
+    sp = [
+        [(a, "lf"), (b_, "lf"), (c, "lf"), (d + b"\r", "none")],                      # CRLF file cut between "\r" and "\n"
+        [(a, "lf"), (b_ + b" ", "lf"), (c, "lf"), (d + b"\t", "lf")],                 # trailing white space: no pattern matches
+        [(b" " + a, "lf"), (b_, "lf")],                                                # leading white space
+        [(a.replace(b" :write", b"\r:write"), "lf"), (b_, "lf")],                      # "\r" inside a line is white space
+        [(a + b"\r", "crlf"), (b_, "lf")],                                             # "\r\r\n"
+        [(a, "lf"), (b"\r", "lf"), (b_, "lf")],                                        # a line consisting of "\r"
+        [(a.replace(b" :write", b"\x0b:write"), "lf"), (b_, "lf")],                    # vertical tab is not \s
+        [(a.replace(b"1", b"\xd9\xa1"), "lf"), (b_, "lf")],                            # a non-ASCII digit is not \d
+        [(a + b"\x00", "lf"), (b_, "lf")], [(a.replace(b"- 0", b"- \xc2\xa00"), "lf")],  # NUL, no-break space
+        [(a, "lf"), (b_, "lf"), (c, "lf"), (d + b"x", "none")], [(a + b"5" * 30, "lf"), (b_, "lf")],   # junk at the end; a number beyond int64
+        [(b"\n\n\r\n", "none")], [(b"\r", "none")], [(b"\r\n", "none")],
+        [(a + b" " * (LINE_LIMIT - 1 - len(a) - 1) + b"x", "lf"), (b_, "none")],      # longest accepted line, not matching
+        [(b"INFO" + b" " * (LINE_LIMIT - 60) + b"jepsen.util - 0 :invoke :write 1", "crlf"), (b_, "none")],
+    ]
+    for tl in sp:
+        single(tl, "special", chk=True)
+    # at and beyond the reader's limit: the implementation may refuse; if it answers, the answer must be the model's
+    for k in ([LINE_LIMIT, LINE_LIMIT + 1] if quick else [LINE_LIMIT, LINE_LIMIT + 1, 2 * LINE_LIMIT, 70000]):
+        single([(a, "lf"), (b"#" * k, "lf"), (b_, "lf")], "over-limit")
+        single([(a, "lf"), (b_, "lf"), (b" " * k, "none")], "over-limit")
+        single([(b"#" * (k - 1), "crlf"), (a, "lf"), (b_, "lf")], "over-limit")
+        single([(P + b"0   :invoke :write  " + b"0" * k + b"1", "lf"), (b_, "none")], "over-limit")
+    return cases
+
+
 # ------------------------------------------------------------------ part (b) helpers
-def gen_script(rng, with_timeouts):
+DEAD_KINDS = ["refused", "silent"]   # how a replica is down: nobody listens (RST) / the peer accepts and never speaks
+
+
+def gen_script(rng, with_timeouts, with_dead=False):
     """script for the protocol executor. The generator keeps a rough count of outstanding operations so that the
-    recorded history stays small enough for the real checker (<= ~8 concurrent, <= 4 failed operations)."""
+    recorded history stays small enough for the real checker (<= ~8 concurrent, <= 4 failed operations).
+    with_dead: rounds in which the Drummer hands out a replica that is down (SD: the only one, SM: one of two), so that
+    operations fail at the connection stage; FH: a GetSession that is not answered before the client's deadline."""
     np = rng.choice([1, 1, 2, 2, 3, 3, 4, 5, 8, 16, 100, 999, 1000, 1001, 1500, 2000])
     n = rng.randrange(3, 28)
     cmds, short_left, srv, gate, dead, fails = [], 0, 0, 0, 0, 0
@@ -295,7 +516,25 @@ def gen_script(rng, with_timeouts):
         if x < 0.30:
             if srv + gate > 5:
                 continue
-            if with_timeouts and fails < 3 and rng.random() < 0.3:
+            avail = max(0, min(4, np - srv - gate - dead))
+            if with_dead and avail > 0 and fails + avail <= 5 and rng.random() < 0.4:
+                kind = rng.choice(DEAD_KINDS)
+                if rng.random() < 0.75:
+                    # every process picked in this round fails before its first rpc and then waits at its record gate
+                    cmds.append("SD:" + kind)
+                    gate += avail
+                else:
+                    if rng.random() < 0.3:
+                        cmds.append("FH")
+                    sched("SM:" + kind)
+                    short_left = 2
+                dead += avail
+                fails += avail
+            elif with_timeouts and fails < 3 and rng.random() < 0.3:
+                if rng.random() < 0.25:
+                    cmds.append("FH")
+                    fails += 1
+                    dead += 1
                 sched("ST")
                 short_left = 2
             elif rng.random() < 0.12:
@@ -377,8 +616,11 @@ def analyse_proto(b):
         emitted += 1
     st, lastw, readval, hobs, fail = {}, 0, {}, [], None
     applied = {}    # process -> the register applied its current write
-    stats = {"ops": 0, "failed": 0, "timeouts": 0, "late_effects": 0, "gates": 0, "conn_failures": 0, "not_applied": 0}
+    stats = {"ops": 0, "failed": 0, "timeouts": 0, "late_effects": 0, "gates": 0, "conn_failures": 0, "not_applied": 0,
+             "failed_at_connect": 0, "failed_at_session": 0, "failed_at_propose": 0, "failed_at_read": 0, "ops_after_a_failure_elsewhere": 0}
     notes = []
+    lastm = {}      # process -> last rpc method of its current operation ("connect" while none has left the client)
+    nfailed = 0
 
     def bad(msg, pos):
         nonlocal fail
@@ -402,6 +644,9 @@ def analyse_proto(b):
                     bad("read invocation carries a value", pos)
                 st[p] = ("invoked", t, v)
                 applied[p] = False
+                lastm[p] = "connect"
+                if nfailed:
+                    stats["ops_after_a_failure_elsewhere"] += 1
             elif r == "c":
                 if s[0] != "returned" or s[3] != "ok" or s[1] != t:
                     bad("process %d: completion recorded without a returned successful %s rpc (state %s)" % (p, t, s[0]), pos)
@@ -412,6 +657,9 @@ def analyse_proto(b):
                 st[p] = ("ready",)
             else:
                 stats["failed"] += 1
+                nfailed += 1
+                stage = {"connect": "connect", "GetSession": "session", "Propose": "propose", "Read": "read"}.get(lastm.get(p, "connect"), "connect")
+                stats["failed_at_" + stage] += 1
                 if s[0] != "returned" or s[3] != "err" or s[1] != t or v != 0:
                     bad("process %d: failure recorded without a failed %s rpc (state %s)" % (p, t, s[0]), pos)
                 st[p] = ("dead",)
@@ -420,6 +668,7 @@ def analyse_proto(b):
             if what == "start":
                 p = int(x[1])
                 s = st.get(p, ("ready",))
+                lastm[p] = x[2]
                 if s[0] == "invoked":
                     st[p] = ("started", s[1], s[2])
                     hobs.append("HStart %d" % p)
@@ -464,9 +713,10 @@ def analyse_proto(b):
                 p = int(x[1])
                 s = st.get(p, ("ready",))
                 if x[3] == "f" and s[0] == "invoked":
-                    # p.read / p.write returned an error before its first rpc left the client (GetInsecureConnection failed,
-                    # e.g. the dial ran into the short deadline of an ST round): in the model the operation's rpc phase
-                    # "starts" and "returns an error" with nothing in between
+                    # p.read / p.write returned an error before its first rpc left the client (GetInsecureConnection failed:
+                    # the replica handed out by the Drummer is down, SD / SM rounds, or the dial ran into the short deadline
+                    # of an ST round): in the model the operation's rpc phase "starts" and "returns an error" with nothing
+                    # in between (Recorder.v abstracts from the stage at which p.read / p.write fails)
                     stats["conn_failures"] += 1
                     st[p] = ("returned", s[1], s[2], "err", None)
                     hobs.append("HStart %d" % p)
@@ -495,8 +745,9 @@ class Reporter:
             replay["kind"] = kind
             self.ck.violation(what, replay, found_input)
 
-    def roundtrip(self, es, parsed, status, replay, where):
-        """round-trip monitor incl. classification of the wide-process-id defect. True iff the case is clean."""
+    def roundtrip(self, es, parsed, status, replay, where, saved=True):
+        """round-trip monitor incl. classification of the wide-process-id defect. True iff the case is clean.
+        saved: the text was written by SaveAsJepsenLog (else: by hand, from the same events)"""
         if status != "ok":
             self.violation("monitor:no_crash", "%s: saving/parsing the history crashed: %s" % (where, status), replay)
             return False
@@ -516,8 +767,9 @@ class Reporter:
             extra = (" — every event of the processes with id >= 1000 (%s) is missing from the parsed history: toJepsenLogEntry leaves no blank "
                      "between a 4-digit process id and the keyword (defect %s is back)" % (pids, WIDE_ID))
         self.violation("monitor:roundtrip" + (":wide-pid" if is_wide else ""),
-                       "%s: SaveAsJepsenLog -> ParseJepsenLog does not give back the recorded operations: %d recorded events -> expected %d checker "
-                       "events (+%d open), parsed %d%s" % (where, len(es), len(main), len(opn), len(parsed), extra), rp)
+                       "%s: %s -> ParseJepsenLog does not give back the recorded operations: %d recorded events -> expected %d checker "
+                       "events (+%d open), parsed %d%s" % (where, "SaveAsJepsenLog" if saved else "log text of the events", len(es), len(main), len(opn),
+                                                           len(parsed), extra), rp)
         return False
 
 
@@ -562,11 +814,15 @@ def run(ck):
     ck.cov["rule"] = ("(a) event lists -> real SaveAsJepsenLog -> real ParseJepsenLog: every event kind x process ids %s and %s, values nil/0/.../MaxInt64; every "
                       "process id 0..2000 in some history; random histories of clients of an atomic register (also handed to the real CheckEvents); arbitrary "
                       "non-well-formed lists; numbers beyond Go's int (model comparison only). (b) random scripts (schedule / schedule with the history mutex held / "
-                      "short-deadline round / release rpc ok|error|error-after-effect / client timeout / open record gate / fail GetSession) over 1..2000 processes "
-                      "against gated gRPC stubs. A case is non-trivial if it records at least one event; distinct by md5 of the case line." % (IDS_B, IDS_X))
+                      "short-deadline round / round in which the replica handed out is down (connection refused | peer silent; all | one of two replicas) / "
+                      "release rpc ok|error|error-after-effect / client timeout / open record gate / fail GetSession with a status code / GetSession not answered) "
+                      "over 1..2000 processes against gated gRPC stubs; directed: every failure stage (connect, session, data rpc) x every status code, followed by "
+                      "further rounds. (c) hand-written log texts: the same lines in every text form (LF / CRLF / mixed, last line unterminated, blank lines, "
+                      "blank line of 4095 bytes), white space and leading zeros inside lines, cas lines, ignored lines, stray CR, odd bytes, lines at and over "
+                      "the reader's 4096 byte limit. A case is non-trivial if it records at least one event; distinct by md5 of the case line." % (IDS_B, IDS_X))
     tm = ck.cov.setdefault("timing_s", {})
     t0 = time.time()
-    proofs_ok = ck.proofs(["theories/JepsenRun.vo", "theories/RecorderRun.vo"])
+    proofs_ok = ck.proofs(["theories/JepsenRun.vo", "theories/RecorderRun.vo", "theories/JepsenTextRun.vo"])
     tm["proofs"] = round(time.time() - t0, 1)
     t0 = time.time()
     binp = ck.go_test_bin("lcm", ["lcm/zz_verif_recorder_test.go"], tags="dragonboat_monkeytest")
@@ -577,13 +833,21 @@ def run(ck):
     rng = ck.rng
     if ck.replay:
         r = json.load(open(ck.replay))
-        if "events" in r:
+        tcases = []
+        if "text" in r:   # [[hex of the line, "lf"|"crlf"|"none"], ...]
+            fcases, pcases = [], []
+            tcases = [{"group": 0, "variant": r.get("variant", "replay"), "tl": [(bytes.fromhex(h), e) for (h, e) in r["text"]], "chk": bool(r.get("check")),
+                       "es": [tuple(e) for e in r["events"]] if r.get("events") is not None else None, "invariant": False, "origin": r.get("origin", "replay"),
+                       "must_reject": False}]
+            tcases[0]["invariant"] = text_form_ok(tcases[0]["tl"])
+        elif "events" in r:
             fcases = [([tuple(e) for e in r["events"]], bool(r.get("check")), "replay")]
             pcases = []
         else:
             fcases, pcases = [], [(r["seed_case"], r["nprocs"], r["script"])]
     else:
         fcases = gen_format_cases(ck)
+        tcases = gen_text_cases(ck)
         # corpus: witnesses of earlier findings run first (corpus/C07/*.json: {"events": [[t, r, pid, value], ...], "check": bool})
         corpus = []
         cdir = os.path.join(ROOT, "corpus", "C07")
@@ -596,7 +860,7 @@ def run(ck):
         pcases = []
         nb = 400 if quick else 8000
         for i in range(nb):
-            np, cmds = gen_script(rng, with_timeouts=(i % (9 if quick else 5) == 0))
+            np, cmds = gen_script(rng, with_timeouts=(i % (9 if quick else 5) == 0), with_dead=(i % (10 if quick else 6) == 3))
             pcases.append((rng.randrange(1, 2 ** 31), np, cmds))
         # directed: tiny process counts, schedule while a completion is waiting at the gate
         pcases.append((1, 1, ["S", "R:0:ok", "S", "G:0", "S", "R:0:err", "S", "G:0", "S"]))
@@ -612,6 +876,25 @@ def run(ck):
                 pcases.append((sd + 1, 1, ["S", "R:0:ok", "G:0", "S", "R:0:erreff:" + code, "G:0", "S", "R:0:ok", "G:0", "S"]))
                 pcases.append((sd + 2, rng.choice([1, 2]), ["FS:" + code, "S", "R:0:ok", "G:0", "R:0:ok", "G:0", "S", "R:0:ok", "G:0", "R:0:ok", "G:0",
                                                             "S", "R:0:ok", "G:0", "R:0:ok", "G:0"]))
+        # the STAGE at which an operation fails: before its first rpc (the replica handed out by the Drummer is down: connection
+        # refused / peer silent; the blocking dial ends with the operation's deadline), at the session rpc (no answer before the
+        # deadline; error codes: above), at the data rpc (above).  Whatever the stage: the failure is recorded, the process is
+        # never scheduled again (the rounds after the failure record nothing for it), other processes go on, the log stays
+        # well formed and is accepted.  The operation kind is the coordinator's random choice: several seeds each.
+        for kind in DEAD_KINDS:
+            for k in range(3 if quick else 16):
+                sd = rng.randrange(1, 2 ** 31)
+                ok1 = ["R:0:ok", "G:0"]
+                pcases.append((sd, 1, ["SD:" + kind, "G:0", "S"] + ok1 + ["S"] + ok1 + ["S"]))
+                pcases.append((sd + 1, 1, ["SD:" + kind, "S", "G:0", "S"] + ok1 + ["S"] + ok1))                  # scheduled while the failure waits at its gate
+                pcases.append((sd + 2, 1, ["S"] + ok1 + ["SD:" + kind, "G:0", "S"] + ok1 + ["S"] + ok1))            # a process that already holds a connection
+                pcases.append((sd + 3, 2, ["SD:" + kind, "G:0", "G:0", "S"] + ok1 * 2 + ["S"] + ok1 * 2))
+                pcases.append((sd + 4, rng.choice([3, 5, 6]), ["SD:" + kind, "G:1", "G:0", "S", "G:0", "G:0"] + ok1 * 2 + ["S"] + ok1 * 4 + ["S"] + ok1 * 2))
+                pcases.append((sd + 5, rng.choice([2, 3]), ["SM:" + kind, "R:0:ok", "R:0:ok", "G:0", "G:0", "G:0", "S"] + ok1 * 2 + ["S"] + ok1 * 2))
+        for k in range(4 if quick else 24):
+            sd = rng.randrange(1, 2 ** 31)
+            pcases.append((sd, 1, ["FH", "ST", "G:0", "S", "R:0:ok", "G:0", "S", "R:0:ok", "G:0"]))
+            pcases.append((sd + 1, 2, ["FH", "ST", "R:0:ok", "G:0", "G:0", "S", "R:0:ok", "R:0:ok", "G:0", "G:0", "S", "R:0:ok", "G:0"]))
         # strictly sequential runs of one process (and two processes taking turns) against the register: every read must see the latest
         # completed write, the run must be accepted by the real checker; the register applies a proposal at most once per session series id
         for k in range(12 if quick else 120):
@@ -662,6 +945,75 @@ def run(ck):
     ck.cov["format_case_origins"] = origins
     ck.cov["checker_verdicts_a"] = chk_stats
 
+    # ================================================================ part (c): text forms
+    tlines = ["T %d %s" % (1 if tc["chk"] else 0, render_text(tc["tl"]).hex() or "-") for tc in tcases]
+    t0 = time.time()
+    tres = run_exec(ck, binp, "TestVerifRecorderText", tlines, "text") if tcases else []
+    tm["go_text"] = round(time.time() - t0, 1)
+    if tres is None:
+        return
+    tres = [l for l in tres if l.startswith("F ")]
+    if len(tres) != len(tcases):
+        ck.violation("text executor returned %d results for %d cases" % (len(tres), len(tcases)), {"kind": "executor"}, found_input=False)
+        return
+    titems, titem_case, clean_c = [], [], []
+    tstats = {"variants": {}, "origins": {}, "refused_over_limit": 0, "verdicts": {}, "groups": len({tc["group"] for tc in tcases})}
+    base = {}
+
+    def canon_tail(parsed):
+        k = len(parsed)
+        while k > 0 and parsed[k - 1][0] == "R" and parsed[k - 1][2:] == (False, False, 0, True):
+            k -= 1
+        return parsed[:k] + sorted(parsed[k:])
+
+    for ci, (tc, l) in enumerate(zip(tcases, tres)):
+        text = render_text(tc["tl"])
+        ck.count_case(tlines[ci], nontrivial=len(text) > 0)
+        tstats["variants"][tc["variant"]] = tstats["variants"].get(tc["variant"], 0) + 1
+        tstats["origins"][tc["origin"]] = tstats["origins"].get(tc["origin"], 0) + 1
+        status, _, parsed, chkres = parse_fline(l)
+        tstats["verdicts"][chkres] = tstats["verdicts"].get(chkres, 0) + 1
+        longest = max(len(x) for x in text.split(b"\n"))
+        replay = {"engine": "recorder/text", "text": [[ln.hex(), e] for (ln, e) in tc["tl"]] if len(text) < 6000 else "(long: see go_input_line)",
+                  "variant": tc["variant"], "check": tc["chk"], "events": [list(e) for e in tc["es"]] if tc["es"] is not None else None,
+                  "file_text": text.decode("latin1")[:3000], "go_input_line": tlines[ci][:9000], "origin": tc["origin"], "longest_line": longest}
+        ok = True
+        where = "text form '%s' of a hand-written log (%s)" % (tc["variant"], tc["origin"])
+        if status != "ok":
+            if longest >= LINE_LIMIT and "isPrefix" in status:
+                tstats["refused_over_limit"] += 1     # the declared limit of the reader; nothing to compare
+                clean_c.append(False)
+                continue
+            rep.violation("monitor:no_crash", "%s: ParseJepsenLog crashed on a text whose longest line has %d bytes: %s" % (where, longest, status), replay)
+            clean_c.append(False)
+            continue
+        if tc["invariant"]:
+            if not text_form_ok(tc["tl"]):
+                ck.violation("internal: generated variant is not a text form", {"kind": "harness", "case": replay}, found_input=False)
+            if tc["es"] is not None and all(printable(e) for e in tc["es"]):
+                ok = rep.roundtrip(tc["es"], parsed, status, replay, where, saved=False)
+            if tc["variant"] == "lf" and tc["group"] not in base:
+                base[tc["group"]] = (canon_tail(parsed), chkres, tlines[ci])
+            elif tc["group"] in base:
+                bparsed, bchk, bline = base[tc["group"]]
+                if ok and canon_tail(parsed) != bparsed:
+                    ok = False
+                    rep.violation("monitor:text_form", "%s: the parsed history differs from the one parsed from the same lines each terminated by a newline: "
+                                  "%d vs %d checker events" % (where, len(parsed), len(bparsed)),
+                                  dict(replay, parsed=[list(x) for x in parsed], parsed_from_newline_terminated=[list(x) for x in bparsed], newline_terminated_input=bline[:4000]))
+                elif ok and chkres in "01" and bchk in "01" and chkres != bchk:
+                    ok = False
+                    rep.violation("monitor:text_form", "%s: the checker's verdict depends on the text form: %s, for the same lines each terminated by a newline: %s" % (
+                        where, chkres, bchk), replay)
+            if ok and tc["must_reject"] and chkres == "1":
+                ok = False
+                rep.violation("monitor:text_form", "%s: a history in which a read returns a value that was never written (or nil after a completed write) "
+                              "is accepted by the checker" % where, replay)
+        clean_c.append(ok)
+        titems.append("(tcase %s %d %d %s %s)" % (tlines_coq(tc["tl"]), len(text), sum(text), cbool(text_form_ok(tc["tl"])), porc_coq(parsed)))
+        titem_case.append(ci)
+    ck.cov["text_form_cases"] = tstats
+
     # ================================================================ part (b)
     plines = ["P %d %d %s" % (sd, np, " ".join(cmds)) for (sd, np, cmds) in pcases]
     t0 = time.time()
@@ -675,7 +1027,8 @@ def run(ck):
         ck.violation("protocol executor returned %d results for %d cases" % (len(blocks), len(pcases)), {"kind": "executor", "tail": pres[-20:]}, found_input=False)
         return
     pitems, pitem_case, clean_b = [], [], []   # clean_b: no crash, no well-formedness monitor failure
-    tot = {"ops": 0, "failed": 0, "timeouts": 0, "late_effects": 0, "gates": 0, "conn_failures": 0, "not_applied": 0}
+    tot = {"ops": 0, "failed": 0, "timeouts": 0, "late_effects": 0, "gates": 0, "conn_failures": 0, "not_applied": 0,
+           "failed_at_connect": 0, "failed_at_session": 0, "failed_at_propose": 0, "failed_at_read": 0, "ops_after_a_failure_elsewhere": 0}
     skipped = 0
     for ci, ((sd, np, cmds), b) in enumerate(zip(pcases, blocks)):
         ck.count_case(plines[ci], nontrivial=len(b["events"]) > 0)
@@ -737,6 +1090,7 @@ def run(ck):
     t0 = time.time()
     exact_diff = 0
     squeeze_diff = 0
+    outside_diff = 0
     mism = []
     if items:
         bad = coq_false_ix(ck, "c07f", "Base Register Jepsen JepsenRun", items, 16 if len(items) > 600 else 4)
@@ -753,6 +1107,22 @@ def run(ck):
                 continue
             if clean_a[ci]:
                 mism.append(("format (what the parser reads in each line)" if sub == 0 else "parse", fcases[ci][2], lines[ci][:600], fres[ci][:600], items[ii][:1500]))
+    if titems:
+        bad = coq_false_ix(ck, "c07t", "Base Register Jepsen JepsenRun JepsenText JepsenTextRun", titems, 8 if len(titems) > 600 else 4)
+        if bad is None:
+            return
+        n_model += len(titems)
+        for (ii, sub) in bad:
+            ci = titem_case[ii]
+            if sub < 2:
+                mism.append(("text rendering (harness vs JepsenText.render)" if sub == 0 else "text_ok (is this a text form)", tcases[ci]["origin"],
+                             tlines[ci][:600], tres[ci][:600], titems[ii][:1500]))
+            elif not text_form_ok(tcases[ci]["tl"]):
+                # a stray "\r" (not followed by "\n") or a terminator inside a "line": no text form in the sense of JepsenText.v, the
+                # property has no opinion on how such a text is split into lines; information only
+                outside_diff += 1
+            elif clean_c[ci]:
+                mism.append(("parse of a hand-written text (%s)" % tcases[ci]["variant"], tcases[ci]["origin"], tlines[ci][:600], tres[ci][:600], titems[ii][:1500]))
     if pitems:
         bad = coq_false_ix(ck, "c07p", "Base Jepsen Recorder RecorderAtomic RecorderRun", pitems, 16 if len(pitems) > 600 else 4)
         if bad is None:
@@ -767,6 +1137,7 @@ def run(ck):
     ck.cov["traces_validated_against_impl"] = n_model
     ck.cov["log_text_cases_not_byte_identical_to_model"] = exact_diff
     ck.cov["log_text_cases_differing_from_model_beyond_alignment"] = squeeze_diff
+    ck.cov["texts_outside_the_text_forms_parsed_differently_from_model"] = outside_diff
     if mism:
         ck.cov["model_disagreements"] = len(mism)
         what, origin, cin, cobs, term = mism[0]
